@@ -266,7 +266,8 @@ def join_aux(source_name, source_key, source_delete,  # noqa: C901
         )
         if key:
             for k, v in zip(target_key.key_list, key):
-                extra[k] = v
+                if k != '#':
+                    extra[k] = v
         return extra
 
     # Yields the new resources
